@@ -27,6 +27,29 @@ def is_text(t):
     return isinstance(t, tuple) and t[0] == "binop" and t[1] == "Mod" and is_const(t[2]) and isinstance(t[2][1], str)
 
 
+def len_upper_bound(term, pol, B):
+    """If `term` (taken with polarity pol) bounds len(B) from above by a constant, that constant (len(B) <= m), else None."""
+    t = term
+    while isinstance(t, tuple) and t and t[0] == "not":
+        t, pol = t[1], not pol
+    if not (isinstance(t, tuple) and t[:1] == ("cmp",)):
+        return None
+    lenB = ("call", ("builtin", "len"), (B,))
+    op, l, r = t[1], t[2], t[3]
+    if r == lenB and is_const(l):
+        l, r, op = r, l, {"<": ">", "<=": ">=", ">": "<", ">=": "<=", "==": "==", "!=": "!="}.get(op, op)
+    if l != lenB or not is_const(r) or isinstance(r[1], bool) or not isinstance(r[1], int):
+        return None
+    c = r[1]
+    if (op == "<" and pol) or (op == ">=" and not pol):
+        return c - 1
+    if (op == "<=" and pol) or (op == ">" and not pol):
+        return c
+    if op == "==" and pol:
+        return c
+    return None
+
+
 def leaves_of_sum(t):
     if isinstance(t, tuple) and t[0] == "binop" and t[1] == "Add":
         return leaves_of_sum(t[2]) + leaves_of_sum(t[3])
@@ -95,6 +118,14 @@ def check(ctx):
         # F5: a while loop whose every iteration works on the current carry (its test re-reads it, or it is `while True` left
         # only by the idle-iteration exits F6 demands; the slices F2 checks are slices of the carry as it is in that iteration)
         t_outer = outer.a.get("test")
+        if t_outer is not None:
+            # the loop test as the exit it is: while len(carry) >= k / while len(carry) > k
+            m_out = len_upper_bound(t_outer, False, B)
+            if m_out is not None:
+                ctx.ob("F5", "%s the framing loop stops only while fewer than 2 bytes are buffered" % cq, m_out <= 1, where=where(outer), function=framer_q,
+                       construct="%s/minimum-wait" % framer_q,
+                       msg="the framing loop stops when len(carry) <= %d: a complete two-byte packet (PINGRESP) that is the last thing received "
+                           "stays in the buffer until something else arrives" % m_out)
         ctx.ob("F5", "%s framing loop re-reads the carry" % cq, outer.a["lkind"] == "while" and (mentions(t_outer, B) or t_outer == ("const", True)),
                where=where(outer), function=framer_q, construct="%s/loop-test" % framer_q,
                msg="the framing loop is %s over %s: several packets in one chunk are not all framed" % (outer.a["lkind"], show(t_outer or outer.a.get("iter"))))
@@ -165,6 +196,15 @@ def check(ctx):
                            msg="%s leaves the framer on a partial packet%s: whether the packets of a chunk are dispatched depends on where the "
                                "chunk was cut" % (show(bp.exit[1]), (" (%s[%s] read without a length test)" % (show(bi[-1].a["base"]), show(bi[-1].a["key"]))) if bi else ""))
                     continue
+                # F5(b): giving up on a length test against a constant is only right when no complete packet can be there yet - the
+                # shortest packet (PINGRESP, or any packet with an empty body) is two bytes long
+                for c in bp.conds[len(outer.conds):]:
+                    m = len_upper_bound(c.term, c.pol, B)
+                    if m is not None:
+                        ctx.ob("F5", "%s the framer waits for more bytes only while fewer than 2 are buffered" % cq, m <= 1, where="%s:%d" % (c.file, c.line),
+                               function=framer_q, construct="%s/minimum-wait" % framer_q,
+                               msg="the framer gives up for this chunk when len(carry) <= %d: a complete two-byte packet (PINGRESP) that is the "
+                                   "last thing received stays in the buffer until something else arrives" % m)
                 # F4 / F6(b)
                 ctx.ob("F4", "%s a path that dispatches nothing leaves the carry alone" % cq, not sets and not muts,
                        where=where((sets + muts)[0]) if sets + muts else where(outer), function=framer_q, construct="%s/carry-modified-without-dispatch" % framer_q,
@@ -281,6 +321,22 @@ def check(ctx):
                     if nm[2] == str(lp.a.get("loop")) and lp.a.get("lkind") == "for" and lp.a.get("target") == nm[0] and isinstance(it, tuple) \
                             and it[:2] == ("call", ("builtin", "range")) and len(it[2]) >= 2 and it[2][0] == ("const", 1):
                         scan_ok = True
+            # ... and moves to the next byte, one at a time, on every iteration that goes on
+            for lp in scan_loops:
+                if lp.a.get("lkind") != "while":
+                    continue
+                for v in sorted(scan_vars):
+                    nm = str(v[1]).partition("@loop")
+                    if nm[2] != str(lp.a.get("loop")):
+                        continue
+                    for sb in lp.a["body"]:
+                        if sb.exit_kind() in ("fall", "continue") and sb.st is not None:
+                            nv = sb.st.env.get(nm[0])
+                            ok_step = nv in (("binop", "Add", v, ("const", 1)), ("binop", "Add", ("const", 1), v))
+                            ctx.ob("F3", "%s width scan advances one byte per iteration" % cq, ok_step, where=where(lp), function=framer_q,
+                                   construct="%s/scan-step" % framer_q,
+                                   msg="an iteration of the scan of the remaining-length field leaves the index at %s: a length field of more than "
+                                       "one byte is measured wrongly (or the scan never ends)" % show(nv))
             ctx.ob("F3", "%s width scan starts at index 1" % cq, scan_ok, where=where(scan_loops[0]) if scan_loops else w0, function=framer_q,
                    construct="%s/scan-start" % framer_q, msg="the scan of the remaining-length field does not start at byte 1 of the carry")
             src = call[0].a["args"][0] if call and call[0].a["args"] else None
